@@ -255,7 +255,10 @@ func buildQuery(decls string, vc *FuncVC, o *Obligation, model bool) string {
 	b.WriteString("(set-logic ALL)\n")
 	b.WriteString(decls)
 	b.WriteString("\n; ---- function " + vc.Key + " ----\n")
-	for _, l := range vc.Script[:o.Prefix] {
+	for i, l := range vc.Script[:o.Prefix] {
+		if o.Blk >= 0 && i < len(vc.ScriptBlk) && vc.ScriptBlk[i] >= 0 && strings.HasPrefix(l, "(assert") && !vc.Reach[vc.ScriptBlk[i]][o.Blk] {
+			continue // assumption made in a block from which the obligation's block cannot be reached: irrelevant
+		}
 		b.WriteString(l)
 		b.WriteByte('\n')
 	}
